@@ -12,7 +12,10 @@ from .. import canon, core, e1, refcodec
 from ..world import Choice, RandomSeam, ServerRec, make_sd, timings
 
 INF = 0xFFFFFF
-CL = {"C1": ("192.0.2.51", 30490), "C2": ("192.0.2.52", 30490)}
+CL = {"C1": ("192.0.2.51", 30490), "C2": ("192.0.2.52", 30490),
+      # subscriber addresses that differ from another one in a single component: the port (C5 vs C1), the scope id
+      # (C3 vs C4: one link-local address seen on two interfaces)
+      "C3": ("fe80::51", 30490, 0, 2), "C4": ("fe80::51", 30490, 0, 3), "C5": ("192.0.2.51", 30491)}
 CLNAME = {v: k for k, v in CL.items()}
 # subscription key -> (eventgroup, counter, endpoint option)
 SUBS = {
@@ -310,6 +313,9 @@ def configs(ctx):
                                   deviations=0, fine=1), ctx.pick(3, 5)))
     ident = [("C1", n, "n") for n in ("sub-a2", "stop-a", "sub-d2", "stop-d", "sub-b2")]
     out.append(("identity", dict(sid=sid, advs=(None, "next"), menu=ident, controls=(), deviations=0, fine=0), CLOSURE))
+    alias = [(c, n, "n") for c in ("C1", "C5", "C3", "C4") for n in ("sub-a2", "stop-a")] + [("C3", "sub-a2", "r"), ("C5", "stop-a", "r")]
+    out.append(("aliased-subscriber-addresses", dict(sid=sid, advs=(None, "next"), menu=alias, controls=(), deviations=0,
+                                                     fine=0), ctx.pick(5, 7)))
     lifecycle = [("C1", n, "n") for n in ("sub-a2", "sub-c2", "stop-a")]
     out.append(("lifecycle", dict(sid=sid, advs=base, menu=lifecycle,
                                   controls=("reject", "announcer", "service", "connlost"),
